@@ -5,8 +5,8 @@ import RaftProofs.ProtoQuorum
 # C02 — election safety: at most one leader per term
 
 Theorems about the abstract protocol P (`RaftModel/Proto.lean`), for **every** reachable state of
-every history of P under a fixed (possibly joint) voter configuration `c0` with at least one voter:
-any number of nodes, any interleaving, any loss / duplication / delay / reordering of messages (the
+**every** history of P — the voter configuration in force is part of each `win` event and may differ
+from election to election (simple and joint membership changes): any number of nodes, any interleaving, any loss / duplication / delay / reordering of messages (the
 released-message sets are monotone and a receiver may consume any element any number of times), any
 crash point and restart (volatile state := durable image), pre-vote / check-quorum / priority /
 transfer on or off (they only *restrict* when the implementation takes a `grant` or `campaign`
@@ -16,56 +16,58 @@ The tie to the code: every implementation history produced by the cluster harnes
 by event, to be a history of P (`applyEvent` accepts every event; the P state equals the node's
 view after every call).
 
-Membership changes: `C02_election_safety` is stated for histories whose elections are all decided
-under one configuration (`ReachC c0`).  The statement with configurations changing during elections
-is kept visible below as `C02_full_statement` and is *not* proved here (DESIGN.md §4.2): for those
-histories the check relies on the per-step obligations of P validated on the implementation
-traces and on the monitor "one effective leader per term".
+Membership changes: P does not derive a node's configuration from its log (that is the component
+theorem C09/C12); it takes the configuration from the event and demands of every `win` that all
+elections of the same term so far were decided under configurations whose quorums meet the winner's
+(`adjOk`: equal configurations, or one membership-change step apart — a decidable check proved to
+imply quorum intersection, `adj_intersect`).  The implementation has to meet that demand on every
+trace; the monitor "one effective leader per term" checks the conclusion directly as well.
 -/
 namespace RaftProps.C02
 open RaftModel.P
 
 /-- **One vote per (term, voter), ever**: across crashes and restarts, every node's released grants
 name at most one candidate per term. -/
-theorem C02_one_vote_per_term_ever (c0 : Cfg) (s : PSys) (hr : ReachC c0 s)
+theorem C02_one_vote_per_term_ever (s : PSys) (hr : Reach s)
     (g1 g2 : Grant) (h1 : g1 ∈ s.grants) (h2 : g2 ∈ s.grants)
     (ht : g1.term = g2.term) (hv : g1.voter = g2.voter) : g1.cand = g2.cand := by
-  have I := invV_reach c0 s hr
+  have I := invV_reachR s hr
   exact I.gc g1.voter g1 g2 (Or.inr ⟨h1, rfl⟩) (Or.inr ⟨h2, hv.symm⟩) ht
 
-/-- every election that ever happened was decided by a quorum of released grants -/
-theorem C02_elected_by_quorum (c0 : Cfg) (s : PSys) (hr : ReachC c0 s) (t l : Nat)
+/-- every election that ever happened was decided by a quorum — of the configuration recorded for it —
+of released grants -/
+theorem C02_elected_by_quorum (s : PSys) (hr : Reach s) (t l : Nat)
     (h : (t, l) ∈ s.elected) :
-    ∃ q, c0.isQuorum q = true ∧ ∀ x ∈ q, (⟨t, x, l⟩ : Grant) ∈ s.grants :=
-  ((invV_reach c0 s hr).el (t, l) h).2
+    ∃ cfg q, (t, cfg) ∈ s.ecfgs ∧ cfg.isQuorum q = true ∧ ∀ x ∈ q, (⟨t, x, l⟩ : Grant) ∈ s.grants :=
+  ((invV_reachR s hr).el (t, l) h).2
 
-/-- **Election safety**: `elected` records every election that ever happened in the history;
-no two distinct nodes are ever elected for the same term. -/
-theorem C02_election_safety (c0 : Cfg) (hne : c0.incoming ≠ [] ∨ c0.outgoing ≠ [])
-    (s : PSys) (hr : ReachC c0 s) (t a b : Nat)
-    (ha : (t, a) ∈ s.elected) (hb : (t, b) ∈ s.elected) : a = b := by
-  have I := invV_reach c0 s hr
-  obtain ⟨_, qa, hqa, hga⟩ := I.el (t, a) ha
-  obtain ⟨_, qb, hqb, hgb⟩ := I.el (t, b) hb
-  obtain ⟨v, hva, hvb⟩ := Cfg.quorums_intersect c0 hne qa qb hqa hqb
-  have h1 := hga v hva
-  have h2 := hgb v hvb
-  exact I.gc v ⟨t, v, a⟩ ⟨t, v, b⟩ (Or.inr ⟨h1, rfl⟩) (Or.inr ⟨h2, rfl⟩) rfl
+/-- **Election safety**, for every history — the voter configuration may change from election to
+election (joint and simple membership changes): `elected` records every election that ever
+happened; no two distinct nodes are ever elected for the same term.  (Two elections of one term are
+decided under configurations whose quorums meet — `win` demands it of the implementation — so they
+share a voter, who votes once.) -/
+theorem C02_election_safety (s : PSys) (hr : Reach s) (t a b : Nat)
+    (ha : (t, a) ∈ s.elected) (hb : (t, b) ∈ s.elected) : a = b :=
+  (invV_reachR s hr).eu (t, a) ha (t, b) hb rfl
 
 /-- a node in the leader role was elected for its current term -/
-theorem C02_leader_was_elected (c0 : Cfg) (s : PSys) (hr : ReachC c0 s) (i : Nat)
+theorem C02_leader_was_elected (s : PSys) (hr : Reach s) (i : Nat)
     (h : (s.nodes i).role = 2) : ((s.nodes i).term, i) ∈ s.elected :=
-  ((invV_reach c0 s hr).ld i h).1
+  ((invV_reachR s hr).ld i h).1
 
 /-- **At most one leader per term** in every reachable state. -/
-theorem C02_one_leader_per_term (c0 : Cfg) (hne : c0.incoming ≠ [] ∨ c0.outgoing ≠ [])
-    (s : PSys) (hr : ReachC c0 s) (i j : Nat)
+theorem C02_one_leader_per_term (s : PSys) (hr : Reach s) (i j : Nat)
     (hi : (s.nodes i).role = 2) (hj : (s.nodes j).role = 2)
     (ht : (s.nodes i).term = (s.nodes j).term) : i = j := by
-  have h1 := C02_leader_was_elected c0 s hr i hi
-  have h2 := C02_leader_was_elected c0 s hr j hj
+  have h1 := C02_leader_was_elected s hr i hi
+  have h2 := C02_leader_was_elected s hr j hj
   rw [ht] at h1
-  exact C02_election_safety c0 hne s hr _ i j h1 h2
+  exact C02_election_safety s hr _ i j h1 h2
+
+/-- the statement of the earlier rounds (`C02_full_statement`: configurations changing while
+elections run) is this theorem -/
+theorem C02_full : ∀ (s : PSys), Reach s → ∀ t a b, (t, a) ∈ s.elected → (t, b) ∈ s.elected → a = b :=
+  fun s hr t a b ha hb => C02_election_safety s hr t a b ha hb
 
 /-- the local obligation behind it, read off the step function: a `win` step needs a candidate
 that voted for itself, its own *released* (= durable) self-vote, and released grants from a quorum -/
@@ -100,10 +102,6 @@ theorem C02_grant_obligation (s s' : PSys) (i c : Nat) (h : applyEvent s (.grant
       exact ⟨hg.2.2.2.1, r, List.mem_of_find?_eq_some hr, hp.1, hp.2.1, hp.2.2⟩
     · cases h
   · cases h
-
-/-- the statement with the voter set changing while elections run — not proved in this round -/
-def C02_full_statement : Prop :=
-  ∀ (s : PSys), Reach s → ∀ t a b, (t, a) ∈ s.elected → (t, b) ∈ s.elected → a = b
 
 /-! ### non-vacuity: a three-voter history with a crash in which node 1 is elected for term 1 -/
 
